@@ -451,9 +451,13 @@ pub fn run_c14(a: &Args) {
         out.set_header(vec![zone_event(&az, &z.class)]);
         let pts = change_points(a, &az, &mut rng);
         for (pi, &(t, cls)) in pts.iter().enumerate() {
-            // the thorough tier: every recorded transition with all seven offsets, every third rule point with
-            // three (an iterator event costs TLC about 6 ms; all points x all offsets was 32 million events)
-            if !a.quick() && cls.starts_with("rule") && pi % 3 != 0 {
+            // the thorough tier: recorded transitions with all seven offsets, every twelfth rule point with
+            // three (an iterator event costs TLC 6 to 40 ms; all points x all offsets was 32 million events)
+            if !a.quick() && cls.starts_with("rule") && pi % 12 != 0 {
+                continue;
+            }
+            // ... and at most about 80 of the recorded transitions of a zone (the last 30 and a spread of the others)
+            if !a.quick() && !cls.starts_with("rule") && az.trans.len() > 80 && pi + 30 < az.trans.len() && pi % (az.trans.len() / 50 + 1) != 0 {
                 continue;
             }
             let n = t as i128 * 1_000_000_000;
